@@ -160,7 +160,11 @@ def impl(op, a):
             b = p.pack()
             sfx = a[k["nargs"]] if len(a) > k["nargs"] else []
             p2 = k["cls"].unpack(bytes(b) + bytes(sfx))
-            return [[int(p2 == p)]] + k["fields"](p2) + [_pack_res(p2)]
+            try:
+                eq = [int(p2 == p)]
+            except Exception as e:  # noqa  (EntityIdTlv.__eq__ can raise)
+                eq = [2, core.canon_code(core.classify_exception(e))]
+            return [eq] + k["fields"](p2) + [_pack_res(p2)]
         if sub == 5 and kn == "eof":
             p, _ = _eof(a)
             for o in a[5:]:
@@ -645,6 +649,9 @@ def oracle(case, ires, sres):
             return ("C06/%s.unpack/length%s" % (name, tag), "decoded header %s lens %s, packed PDU has %d octets (header %d)" % (hd, lens, len(exp), hl))
         if idsr != a[0] or flagsr != [a[1][0], a[1][1], a[1][2], exp[0] >> 3 & 1, a[1][4]]:
             return ("C06/%s.unpack/header-fields%s" % (name, tag), "%s %s decoded as %s %s" % (a[0], a[1], idsr, flagsr))
+        if eq[0] == 2:
+            return ("C06/%s.__eq__/raises" % name, "comparing the decoded PDU with the original raised %s (fault location %s)"
+                    % (core.ERR_NAMES.get(eq[1], eq[1]), a[4] if kn == "eof" else None))
         if eq != [1]:
             return ("C06/%s.__eq__/roundtrip%s" % (name, tag), "decoded PDU not equal to the original")
         if repack != [0] + exp:
